@@ -1,5 +1,279 @@
 //! C08: shapes and attribute rows through the complete Writer / Reader (real dbase crate).
+use crate::cases::Case;
+use crate::exec::*;
 use crate::gen::*;
+use crate::oracles::*;
+use crate::proto::*;
 use crate::Out;
+use shapefile::dbase;
+use shapefile::*;
+use std::convert::TryInto;
+use std::io::Cursor;
+use std::panic::{catch_unwind, AssertUnwindSafe};
 
-pub fn cases_dbf(_tier: &str, _rng: &mut Rng, _stats: &mut Stats, _out: &mut Out) {}
+#[derive(Clone, Copy, PartialEq, Eq, Debug)]
+pub enum PairOp {
+    Good,       // shape of the file's type + complete row
+    WrongShape, // shape of another type + complete row
+    ShortRow,   // good shape + row missing a field
+    WrongRow,   // good shape + row whose value has the wrong field type
+}
+impl PairOp {
+    pub fn tok(self) -> &'static str {
+        match self {
+            PairOp::Good => "g",
+            PairOp::WrongShape => "s",
+            PairOp::ShortRow => "r",
+            PairOp::WrongRow => "t",
+        }
+    }
+    pub fn parse(t: &str) -> Option<PairOp> {
+        Some(match t {
+            "g" => PairOp::Good,
+            "s" => PairOp::WrongShape,
+            "r" => PairOp::ShortRow,
+            "t" => PairOp::WrongRow,
+            _ => return None,
+        })
+    }
+}
+
+fn shape_for(base: &str, q: usize) -> Any {
+    let v = q as f64;
+    match base {
+        "PointZ" => Any::PointZ(PointZ::new(v, 1.0, 2.0, 3.0)),
+        "Polyline" => Any::Polyline(Polyline::new(vec![Point::new(v, 0.0), Point::new(v, 1.0 + v)])),
+        _ => Any::Point(Point::new(v, 0.5)),
+    }
+}
+fn other_shape(base: &str, q: usize) -> Any {
+    let v = q as f64;
+    if base == "Polyline" {
+        Any::Point(Point::new(v, 0.0))
+    } else {
+        Any::Polyline(Polyline::new(vec![Point::new(v, 0.0), Point::new(v, 1.0)]))
+    }
+}
+fn shape_q(s: &Shape) -> Option<usize> {
+    match s {
+        Shape::Point(p) => Some(p.x as usize),
+        Shape::PointZ(p) => Some(p.x as usize),
+        Shape::Polyline(p) => p.parts().first().and_then(|pt| pt.first()).map(|p| p.x as usize),
+        _ => None,
+    }
+}
+
+fn row_for(op: PairOp, q: usize) -> dbase::Record {
+    let mut r = dbase::Record::default();
+    match op {
+        PairOp::ShortRow => {
+            r.insert("idx".into(), dbase::FieldValue::Numeric(Some(q as f64)));
+        }
+        PairOp::WrongRow => {
+            r.insert("idx".into(), dbase::FieldValue::Character(Some("x".into())));
+            r.insert("name".into(), dbase::FieldValue::Character(Some(format!("r{}", q))));
+        }
+        _ => {
+            r.insert("idx".into(), dbase::FieldValue::Numeric(Some(q as f64)));
+            r.insert("name".into(), dbase::FieldValue::Character(Some(format!("r{}", q))));
+        }
+    }
+    r
+}
+
+pub struct PairRun {
+    pub results: Vec<String>,
+    pub shp: Vec<u8>,
+    pub shx: Vec<u8>,
+    pub dbf: Vec<u8>,
+}
+
+pub fn run_pairs(base: &str, ops: &[PairOp]) -> Result<PairRun, String> {
+    let (shp, shx, dbf) = (LogDst::new(), LogDst::new(), LogDst::new());
+    let (s2, x2, d2) = (shp.clone(), shx.clone(), dbf.clone());
+    let base = base.to_string();
+    let ops = ops.to_vec();
+    let r = catch_unwind(AssertUnwindSafe(move || {
+        let table = dbase::TableWriterBuilder::new()
+            .add_numeric_field("idx".try_into().unwrap(), 10, 0)
+            .add_character_field("name".try_into().unwrap(), 10)
+            .build_with_dest(d2);
+        let mut w = Writer::new(ShapeWriter::with_shx(s2, x2), table);
+        let mut results = vec![];
+        for (q, op) in ops.iter().enumerate() {
+            let shape = if *op == PairOp::WrongShape && q > 0 { other_shape(&base, q) } else { shape_for(&base, q) };
+            let row = row_for(*op, q);
+            let r = crate::with_any!(&shape, s => w.write_shape_and_record(s, &row));
+            results.push(match r {
+                Ok(()) => "ok".to_string(),
+                Err(e) => format!("err {}", show_err(&e)),
+            });
+        }
+        drop(w);
+        results
+    }));
+    match r {
+        Ok(results) => Ok(PairRun { results, shp: shp.data(), shx: shx.data(), dbf: dbf.data() }),
+        Err(e) => Err(panic_msg(&e)),
+    }
+}
+
+pub fn counts(run: &PairRun) -> (usize, usize, usize) {
+    let nshp = walk_records(&run.shp).map(|v| v.len()).unwrap_or(usize::MAX);
+    let nshx = if run.shx.len() >= 100 { (run.shx.len() - 100) / 8 } else { 0 };
+    let ndbf = if run.dbf.len() >= 8 { u32::from_le_bytes(run.dbf[4..8].try_into().unwrap()) as usize } else { 0 };
+    (nshp, nshx, ndbf)
+}
+
+pub fn v_dbfhist(base: &str, ops: &[PairOp]) -> String {
+    match run_pairs(base, ops) {
+        Err(e) => format!("panic {}", e),
+        Ok(run) => {
+            let (a, b, c) = counts(&run);
+            format!("{} | shp={} shx={} dbf={}", run.results.join(" ; "), a, b, c)
+        }
+    }
+}
+
+/// the property on one history
+pub fn oracle_c08(base: &str, ops: &[PairOp]) -> Verdict {
+    let run = match run_pairs(base, ops) {
+        Ok(r) => r,
+        Err(e) => return Verdict::fail("pairs-panic", e),
+    };
+    let (nshp, nshx, ndbf) = counts(&run);
+    // which calls were expected to succeed: the first call fixes the type; a wrong-type shape and bad rows fail
+    let mut expected_ok: Vec<usize> = vec![];
+    for (q, op) in ops.iter().enumerate() {
+        let want_ok = *op == PairOp::Good || (*op == PairOp::WrongShape && q == 0);
+        let got_ok = run.results[q] == "ok";
+        if want_ok != got_ok {
+            return Verdict::fail("pairs-call-result", format!("call {} ({:?}) returned {}", q, op, run.results[q]));
+        }
+        if got_ok {
+            expected_ok.push(q);
+        }
+    }
+    if nshp != nshx || nshp != ndbf {
+        let sig = if ops.iter().any(|o| matches!(o, PairOp::ShortRow | PairOp::WrongRow)) { "row-rejected-after-shape-committed" } else { "pairs-count-mismatch" };
+        return Verdict::fail(sig, format!("after the history {:?} the files hold {} shp records, {} shx entries, {} dbf rows", ops.iter().map(|o| o.tok()).collect::<Vec<_>>(), nshp, nshx, ndbf));
+    }
+    // read back: pairs in order, shape i with row i
+    let r = catch_unwind(AssertUnwindSafe(|| -> Result<Vec<(usize, usize)>, String> {
+        let sr = ShapeReader::with_shx(Cursor::new(run.shp.clone()), Cursor::new(run.shx.clone())).map_err(|e| show_err(&e))?;
+        let dr = dbase::Reader::new(Cursor::new(run.dbf.clone())).map_err(|e| format!("dbase {:?}", e))?;
+        let mut rdr = Reader::new(sr, dr);
+        let mut out = vec![];
+        for item in rdr.iter_shapes_and_records() {
+            let (s, row) = item.map_err(|e| show_err(&e))?;
+            let q = shape_q(&s).ok_or("unexpected shape")?;
+            let idx = match row.get("idx") {
+                Some(dbase::FieldValue::Numeric(Some(v))) => *v as usize,
+                other => return Err(format!("row without idx: {:?}", other)),
+            };
+            out.push((q, idx));
+        }
+        Ok(out)
+    }));
+    match r {
+        Err(e) => Verdict::fail("pairs-read-panic", panic_msg(&e)),
+        Ok(Err(e)) => Verdict::fail("pairs-read-error", e),
+        Ok(Ok(pairs)) => {
+            if pairs.iter().any(|(a, b)| a != b) {
+                return Verdict::fail("pairs-shifted", format!("read back pairs (shape, row): {:?}", pairs));
+            }
+            if pairs.iter().map(|p| p.0).collect::<Vec<_>>() != expected_ok {
+                return Verdict::fail("pairs-missing", format!("read back {:?}, written {:?}", pairs, expected_ok));
+            }
+            Verdict::pass()
+        }
+    }
+}
+
+/// by path: Writer::from_path / Reader::from_path / shapefile::read
+pub fn oracle_c08_path(n: usize) -> Verdict {
+    let base = std::env::var("VERIF_WORK").unwrap_or_else(|_| "/verif/work".into());
+    let dir = std::path::PathBuf::from(base).join(format!("h{}", std::process::id()));
+    std::fs::create_dir_all(&dir).unwrap();
+    let path = dir.join("c08.shp");
+    let r = catch_unwind(AssertUnwindSafe(|| -> Result<(), String> {
+        {
+            let table = dbase::TableWriterBuilder::new().add_numeric_field("idx".try_into().unwrap(), 10, 0).add_character_field("name".try_into().unwrap(), 10);
+            let mut w = Writer::from_path(&path, table).map_err(|e| show_err(&e))?;
+            for q in 0..n {
+                w.write_shape_and_record(&Point::new(q as f64, 0.5), &row_for(PairOp::Good, q)).map_err(|e| show_err(&e))?;
+            }
+        }
+        let pairs = shapefile::read(&path).map_err(|e| show_err(&e))?;
+        if pairs.len() != n {
+            return Err(format!("{} pairs read, {} written", pairs.len(), n));
+        }
+        for (i, (s, row)) in pairs.iter().enumerate() {
+            let q = shape_q(s).ok_or("unexpected shape")?;
+            match row.get("idx") {
+                Some(dbase::FieldValue::Numeric(Some(v))) if *v as usize == i && q == i => {}
+                other => return Err(format!("pair {}: shape {} row {:?}", i, q, other)),
+            }
+        }
+        // seek keeps shapes and rows aligned
+        let mut rdr = Reader::from_path(&path).map_err(|e| show_err(&e))?;
+        if n >= 2 {
+            rdr.seek(1).map_err(|e| show_err(&e))?;
+            let rest: Vec<_> = rdr.iter_shapes_and_records().collect();
+            if rest.len() != n - 1 {
+                return Err(format!("after seek(1): {} pairs, expected {}", rest.len(), n - 1));
+            }
+            for (i, item) in rest.into_iter().enumerate() {
+                let (s, row) = item.map_err(|e| show_err(&e))?;
+                let q = shape_q(&s).ok_or("unexpected shape")?;
+                match row.get("idx") {
+                    Some(dbase::FieldValue::Numeric(Some(v))) if *v as usize == i + 1 && q == i + 1 => {}
+                    other => return Err(format!("after seek(1) pair {}: shape {} row {:?}", i, q, other)),
+                }
+            }
+        }
+        Ok(())
+    }));
+    for ext in ["shp", "shx", "dbf"] {
+        let _ = std::fs::remove_file(path.with_extension(ext));
+    }
+    match r {
+        Ok(Ok(())) => Verdict::pass(),
+        Ok(Err(e)) => Verdict::fail("pairs-path", e),
+        Err(e) => Verdict::fail("pairs-path-panic", panic_msg(&e)),
+    }
+}
+
+pub fn cases_dbf(tier: &str, rng: &mut Rng, stats: &mut Stats, out: &mut Out) {
+    let max_len = if tier == "thorough" { 6 } else { 4 };
+    let alphabet = [PairOp::Good, PairOp::WrongShape, PairOp::ShortRow, PairOp::WrongRow];
+    for base in ["Point", "PointZ", "Polyline"] {
+        for len in 0..=max_len {
+            let total = 4usize.pow(len as u32);
+            for idx in 0..total {
+                if len > 4 && rng.below(4) != 0 {
+                    continue;
+                }
+                let mut x = idx;
+                let ops: Vec<PairOp> = (0..len)
+                    .map(|_| {
+                        let o = alphabet[x % 4];
+                        x /= 4;
+                        o
+                    })
+                    .collect();
+                for o in &ops {
+                    stats.hit(&format!("pairs.{}", o.tok()));
+                }
+                stats.hit(&format!("pairs.len.{}", len));
+                let c = Case::DbfHist { base: base.to_string(), ops: ops.clone() };
+                let (id, _res) = out.case(&c);
+                out.verdict(&id, &crate::cases::show_case(&c), oracle_c08(base, &ops));
+            }
+        }
+    }
+    for n in [0usize, 1, 2, 5] {
+        let id = out.oracle_only_id();
+        out.verdict(&id, &format!("path-pairs {}", n), oracle_c08_path(n));
+    }
+}
